@@ -80,7 +80,9 @@ def walk_no_nested(node: ast.AST, include_self: bool = True) -> Iterator[ast.AST
 def body_walk(fn: ast.AST) -> Iterator[ast.AST]:
     """All nodes in the body of a function (not nested defs), in source order."""
     for st in getattr(fn, "body", []):
-        if isinstance(st, ast.AST):
+        if isinstance(st, (ast.FunctionDef, ast.AsyncFunctionDef, ast.ClassDef)):
+            yield st  # a nested definition is a statement of this body; its own body is not
+        elif isinstance(st, ast.AST):
             yield from walk_no_nested(st)
     if isinstance(fn, ast.Lambda):
         yield from walk_no_nested(fn.body)
